@@ -45,6 +45,92 @@ TRUSTED = [
 ]
 
 
+def short(e, limit=400):
+    """printable form of a z3 term; terms with heavy sharing are not expanded (printing a DAG as a tree is exponential)"""
+    seen, stack, n = set(), [e], 0
+    while stack and n <= 1500:
+        x = stack.pop()
+        if x.get_id() in seen:
+            continue
+        seen.add(x.get_id())
+        n += 1
+        stack.extend(x.children())
+    if n > 1500:
+        return f"<term with more than {n} distinct nodes>"
+    return str(e)[:limit]
+
+
+class OblRec:
+    """picklable record of an obligation (the z3 terms stay in the child process)"""
+
+    def __init__(self, name, kind, meta, goal, n_hyps, job):
+        self.name, self.kind, self.meta, self.goal_text, self.n_hyps, self.job = name, kind, meta, goal, n_hyps, job
+
+
+def _sym_child(conn, pid, name):
+    try:
+        cd = next(c for c in C.PROPS[pid] if c.name == name)
+        r = C.run_symbolic(cd)
+        recs = []
+        for o in r["obligations"]:
+            meta = {k: (v if isinstance(v, (str, int, float, bool, list, dict, type(None))) else str(v)) for k, v in o.meta.items()}
+            recs.append(OblRec(o.name, o.kind, meta, short(o.goal, 2000), len(o.hyps), discharge.make_job(o)))
+        conn.send({"ok": True, "obls": recs, "errors": r["errors"], "paths": r["paths"], "axioms": r["axioms"],
+                   "assumed": r["assumed"], "loaded": r["loaded"], "stub_calls": r["stub_calls"]})
+    except BaseException as e:  # noqa
+        import traceback
+        try:
+            conn.send({"ok": False, "error": f"{e!r}\n{traceback.format_exc(limit=8)}"})
+        except Exception:
+            pass
+    finally:
+        conn.close()
+
+
+def run_symbolic_parallel(pid, cds, limit_s, width=8):
+    import multiprocessing as mp
+    ctx = mp.get_context("fork")
+    outs = [None] * len(cds)
+    attempts = [0] * len(cds)
+    todo = list(range(len(cds)))
+    running = {}
+    while todo or running:
+        while todo and len(running) < width:
+            i = todo.pop(0)
+            rd, wr = ctx.Pipe(duplex=False)
+            pr = ctx.Process(target=_sym_child, args=(wr, pid, cds[i].name))
+            pr.start()
+            wr.close()
+            attempts[i] += 1
+            running[i] = (pr, rd, time.time())
+        for i, (pr, rd, t0) in list(running.items()):
+            got = None
+            try:
+                if rd.poll(0.05):
+                    got = rd.recv()
+            except (EOFError, OSError):
+                got = {"ok": False, "error": "symbolic execution child died"}
+            if got is None and time.time() - t0 > limit_s:
+                pr.kill()
+                got = {"ok": False, "error": f"symbolic execution exceeded {limit_s} s (solver hang in a path-feasibility check?)"}
+                if attempts[i] < 2:
+                    pr.join()
+                    del running[i]
+                    todo.append(i)
+                    continue
+            if got is None and not pr.is_alive() and not rd.poll(0.2):
+                got = {"ok": False, "error": f"symbolic execution child exited with {pr.exitcode}"}
+            if got is not None:
+                if pr.is_alive():
+                    pr.join(5)
+                    if pr.is_alive():
+                        pr.kill()
+                pr.join()
+                outs[i] = got
+                del running[i]
+    return outs
+
+
 def load_contracts():
     import contracts
     for m in pkgutil.iter_modules(contracts.__path__):
@@ -91,27 +177,39 @@ def grid_cases(cdef, tier, seed):
     return cdef.grid(tier, rng)
 
 
-def run_grid(cdef, tier, seed, max_fail=5):
-    """bounded stand-in / concrete enumeration: returns stats dict"""
+def _grid_case(args):
+    pid, name, assign = args
+    cd = next(c for c in C.PROPS[pid] if c.name == name)
+    st, failures, ctx = C.run_concrete(cd, assign)
+    return st, failures, dict(ctx.used), len(ctx.checked)
+
+
+def run_grid(cdef, tier, seed, max_fail=5, procs=16):
+    """bounded stand-in / concrete enumeration: returns stats dict (cases are evaluated in a process pool)"""
     ev = nontriv = skipped = 0
-    fails = []
-    samples = []
-    seen = set()
-    for assign in grid_cases(cdef, tier, seed):
+    fails, samples, seen = [], [], set()
+    cases = list(grid_cases(cdef, tier, seed))
+    if len(cases) >= 32 and procs > 1:
+        from concurrent.futures import ProcessPoolExecutor
+        import multiprocessing as mp
+        with ProcessPoolExecutor(max_workers=procs, mp_context=mp.get_context("fork")) as ex:
+            results = list(ex.map(_grid_case, [(cdef.pid, cdef.name, a) for a in cases], chunksize=max(1, len(cases) // (procs * 8))))
+    else:
+        results = [_grid_case((cdef.pid, cdef.name, a)) for a in cases]
+    for st, failures, used, n_checked in results:
         ev += 1
-        st, failures, ctx = C.run_concrete(cdef, assign)
         if st == "skip":
             skipped += 1
             continue
-        key = tuple(sorted((k, repr(v)) for k, v in ctx.used.items()))
-        if key not in seen and ctx.checked:
+        key = tuple(sorted((k, repr(v)) for k, v in used.items()))
+        if key not in seen and n_checked:
             seen.add(key)
             nontriv += 1
         if len(samples) < 3:
-            samples.append({"contract": cdef.full, "input": ctx.used, "clauses_checked": len(ctx.checked), "status": st})
+            samples.append({"contract": cdef.full, "input": used, "clauses_checked": n_checked, "status": st})
         if st in ("fail", "error"):
             if len(fails) < max_fail or all(f["failures"] != failures for f in fails):
-                fails.append({"assign": dict(ctx.used), "failures": failures})
+                fails.append({"assign": dict(used), "failures": failures})
     return {"evaluations": ev, "distinct_nontrivial": nontriv, "skipped": skipped, "fails": fails, "samples": samples}
 
 
@@ -154,16 +252,14 @@ def main(argv=None):
     sample_obls = []
     n_paths = 0
 
-    # ---- symbolic part ----------------------------------------------------------------------
-    sym_results = []
-    for cd in cdefs:
-        if cd.level != "proof":
-            continue
-        try:
-            r = C.run_symbolic(cd)
-        except Exception as e:  # noqa
-            import traceback
-            checker_errors.append(f"{cd.full}: {e!r}\n{traceback.format_exc(limit=8)}")
+    # ---- symbolic part: one child process per contract (hard wall-clock limit, parallel) ------------
+    sym_cds = [cd for cd in cdefs if cd.level == "proof"]
+    limit_s = 200 if tier == "quick" else 1200
+    outs = run_symbolic_parallel(pid, sym_cds, limit_s)
+    all_obls = []
+    for cd, r in zip(sym_cds, outs):
+        if not r.get("ok"):
+            checker_errors.append(f"{cd.full}: {r.get('error')}")
             continue
         checker_errors += r["errors"]
         n_paths += r["paths"]
@@ -173,12 +269,11 @@ def main(argv=None):
             functions[k] = {"source_sha256_16": h, "under_contract": k in cd.funcs}
         for k in r["stub_calls"]:
             assumed.setdefault(f"callee contract used at call site: {k}", f"{r['stub_calls'][k]} call(s); body not entered")
-        if not [o for o in r["obligations"] if o.kind != "cover"]:
+        if not [o for o in r["obls"] if o.kind != "cover"]:
             checker_errors.append(f"{cd.full}: contract generated zero obligations")
-        sym_results.append((cd, r))
-        all_obls += [(cd, o) for o in r["obligations"]]
+        all_obls += [(cd, o) for o in r["obls"]]
 
-    results = discharge.discharge_all([o for _, o in all_obls], budget_ms=budget) if all_obls else []
+    results = discharge.discharge_jobs([o.job for _, o in all_obls], budget_ms=budget) if all_obls else []
     n_obl = n_dis = 0
     slow = sorted(((r["solver_s"], o.name, r["tried"]) for (_, o), r in zip(all_obls, results)), reverse=True)[:6]
     if args.verbose:
@@ -203,7 +298,7 @@ def main(argv=None):
             by_backend[res["backend"]]["solver_s"] = round(by_backend[res["backend"]]["solver_s"] + res["solver_s"], 3)
             clause_status.setdefault(clause, "proved")
             if len(sample_obls) < 4 and o.kind == "post":
-                sample_obls.append({"obligation": o.name, "goal": str(o.goal)[:400], "n_hyps": len(o.hyps), "backend": res["backend"], "solver_s": res["solver_s"]})
+                sample_obls.append({"obligation": o.name, "goal": o.goal_text[:400], "n_hyps": o.n_hyps, "backend": res["backend"], "solver_s": res["solver_s"]})
             continue
         clause_status[clause] = res["status"]
         if res["status"] == "unknown":
@@ -219,18 +314,18 @@ def main(argv=None):
                 assign[k] = math.atan2(C.parse_model_value(model.get(sn, 0)), C.parse_model_value(model.get(cn, 1)))
         st, failures, ctx = C.run_concrete(cd, assign)
         import re
-        short = re.sub(r"\[\d+\]$", "", clause[len(cd.full) + 1:])
-        reproduced = st in ("fail", "error") and (short in failures or o.kind in ("safety", "inv", "lemma") or short.startswith("noexcept") or any(f.startswith("exception") for f in failures))
+        short_cl = re.sub(r"\[\d+\]$", "", clause[len(cd.full) + 1:])
+        reproduced = st in ("fail", "error") and (short_cl in failures or o.kind in ("safety", "inv", "lemma") or short_cl.startswith("noexcept") or any(f.startswith("exception") for f in failures))
         if not reproduced:
             # bounded search for a real failing input of the same clause
             for a2 in itertools.islice(grid_cases(cd, "thorough", seed), 4000):
                 st2, f2, ctx2 = C.run_concrete(cd, a2)
-                if st2 in ("fail", "error") and (short in f2 or o.kind != "post"):
+                if st2 in ("fail", "error") and (short_cl in f2 or o.kind != "post"):
                     assign, failures, reproduced, ctx = dict(ctx2.used), f2, True, ctx2
                     break
         payload = {"property": pid, "obligation": o.name, "clause": clause, "kind": o.kind, "contract": cd.full,
                    "functions": cd.funcs, "solver": res, "input": assign, "native_failures": failures,
-                   "reproduced_on_real_code": reproduced, "goal": str(o.goal)[:2000], "meta": {k: str(v)[:2000] for k, v in o.meta.items()}}
+                   "reproduced_on_real_code": reproduced, "goal": o.goal_text, "meta": {k: str(v)[:2000] for k, v in o.meta.items()}}
         hit = next((f for f in known["findings"] if finding_matches(f, pid, clause, assign)), None)
         if hit:
             if (hit, clause) not in known_hits:
